@@ -742,6 +742,19 @@ fn gen_c10(seed: u64) -> Plan {
             let m = MutSpec { kind, ordinal: b.rng.below(6), op, seed: b.rng.next_u64() };
             b.plan.peers[attacker].mutations.push(m);
         }
+        // transactions proofs with boundary positions; the user asks for several transactions of
+        // one block at the same moment (they travel in one request)
+        for i in 0..3 {
+            let m = MutSpec { kind: 3, ordinal: i, op: 2001, seed: mix(&[seed, i, 0xcb]) };
+            b.plan.peers[attacker].mutations.push(m);
+        }
+        for _ in 0..b.rng.range(1, 3) {
+            let at = b.rng.range(500, until);
+            let number = b.rng.range(1, tip);
+            for k in 0..3 {
+                add(&mut b.plan, at, Action::User(UserOp::FetchTransaction(HashRef::Tx { branch: 0, number, k })));
+            }
+        }
         for _ in 0..b.rng.range(1, 5) {
             let at = b.rng.range(500, until);
             let op = if b.rng.chance(1, 2) {
